@@ -1215,7 +1215,9 @@ def check(program, rep):
     # named optional parameters not passed on (NAMELINK, DESIGN.md 9.13)
     from .. import namelink as _nl
     rep.guard("C18-R7", _nl.rule, program, rep, "C18-R7",
-              [m for m in sorted(program.modules) if m.startswith("rig.machine_control")])
+              [m for m in sorted(program.modules)
+               if m.startswith("rig.machine_control") or
+               m.startswith("rig.utils")])
     return finish(rep, program, EXPLANATION, NOT_DECIDED,
                   trusted=["role table in roles.py and the EXEMPT / "
                            "ALLOWED_CONSTS tables in rules/C18.py (one "
